@@ -687,12 +687,21 @@ func syncwireSuite(seed uint64, tier, outDir string) (*core.Result, error) {
 		desc := map[string]interface{}{"kind": "genuine", "state": label, "reply_bytes": len(wire), "servers": len(servers), "migration": d.mig != nil, "outcome": obs0.errClass}
 		replay := map[string]interface{}{"state": label, "wire": hex.EncodeToString(wire)}
 		n := len(wire) - 2
-		if n < 712 || int(binary.LittleEndian.Uint16(wire)) != n {
+		wraps := n > 65535 && int(binary.LittleEndian.Uint16(wire)) == n&0xffff
+		if wraps {
+			// the reply does not fit its 16-bit length prefix: the client reads n mod 65536 bytes of it
+			replay = map[string]interface{}{"state": label, "reply_bytes": n, "servers": len(servers), "prefix": binary.LittleEndian.Uint16(wire), "client": obs0.errText + obs0.panicked}
+			res.Fail(fmt.Sprintf("a server that knows %d authorized servers answers a sync request with %d bytes behind a 16-bit length prefix of %d: the client rejects the genuine reply (%s) and the device can no longer sync with this server", len(servers), n, binary.LittleEndian.Uint16(wire), obs0.errText+obs0.panicked), "reply-length-wraps", replay)
+			if obs0.ok {
+				res.Fail("the client accepts a reply whose length prefix wrapped", "reply-length-wraps-accepted", replay)
+			}
+		} else if n < 712 || int(binary.LittleEndian.Uint16(wire)) != n {
 			res.Fail("genuine reply is not framed as length prefix ++ body", "genuine-frame", replay)
 			return nil
 		}
 		// ---- property oracle on the genuine reply
-		if !obs0.ok {
+		if wraps {
+		} else if !obs0.ok {
 			res.Fail("the client rejects the genuine reply of the server: "+obs0.errText+obs0.panicked, "genuine-rejected", replay)
 		} else {
 			records := 0
@@ -752,6 +761,9 @@ func syncwireSuite(seed uint64, tier, outDir string) (*core.Result, error) {
 		vcases = append(vcases, core.Tuple(core.Hex(d.key.pub[:]), core.ZU(uint64(off)), "(rle "+core.List(rle)+")", mg, asListG(servers),
 			core.ZU(binary.LittleEndian.Uint64(wire[2+n-72:])), core.Hex(wire[2+n-64:]), core.Hex(wire)))
 
+		if wraps {
+			return nil
+		}
 		// ---- mutations
 		t := tab.clone()
 		var sig glow.Signature
@@ -1037,6 +1049,14 @@ func syncwireSuite(seed uint64, tier, outDir string) (*core.Result, error) {
 		return nil, err
 	}
 
+	// ---- so many authorized servers that the reply outgrows its 16-bit length prefix
+	for i := 0; i < 182; i++ {
+		postServer(3, i%5 == 0, newKey().pub)
+	}
+	if err := snapshot(main, "reply-over-64k"); err != nil {
+		return nil, err
+	}
+
 	for off := 0; off < len(vcases); off += 6 {
 		end := off + 6
 		if end > len(vcases) {
@@ -1047,10 +1067,10 @@ func syncwireSuite(seed uint64, tier, outDir string) (*core.Result, error) {
 		}
 	}
 	res.Required = append(res.Required, "refusal", "state.empty", "state.lower-edge", "state.servers-0-1-254-255", "state.upper-indices",
-		"state.migration-0-servers", "state.migration-4-servers", "state.rotated-offset-2016", "window.bit0", "window.banned-slot",
+		"state.migration-0-servers", "state.migration-4-servers", "state.rotated-offset-2016", "state.reply-over-64k", "window.bit0", "window.banned-slot",
 		"window.index3632", "window.offset-nonzero", "servers.loc0", "servers.loc255", "mut.bitflip", "mut.truncation", "mut.extension",
 		"mut.extension-unread", "mut.resigned-random", "mut.other-server-key", "mut.other-device", "mut.other-gca", "mut.inner-tamper",
 		"mut.timeshift-86401", "mut.timeshift-86400", "mut.timeshift-86399", "mut.timeshift+86399", "mut.timeshift+86400", "mut.timeshift+86401")
-	res.Rule = "server states built through UDP reports (window edges 0/7/8/431/432/864/3199..3632, banned slot, power 2, refused reports), HTTP posts (0..8 servers, locations of 0/1/254/255 bytes, bans), migration orders with 0..4 new servers, rotation to offset 2016; per state: genuine reply vs public data, sampled (quick) or all (thorough, small replies) single-bit flips, truncations, extensions, re-signings, key swaps, timestamp shifts +-86399/86400/86401 re-signed with the server key, inner-signature tampering; distinct by (state, mutation)"
+	res.Rule = "server states built through UDP reports (window edges 0/7/8/431/432/864/3199..3632, banned slot, power 2, refused reports), HTTP posts (0..8 servers, locations of 0/1/254/255 bytes, bans), migration orders with 0..4 new servers, rotation to offset 2016, 190 servers (reply beyond 64 KiB); per state: genuine reply vs public data, sampled (quick) or all (thorough, small replies) single-bit flips, truncations, extensions, re-signings, key swaps, timestamp shifts +-86399/86400/86401 re-signed with the server key, inner-signature tampering; distinct by (state, mutation)"
 	return res, nil
 }
